@@ -121,6 +121,13 @@ def space(tier):
         out.append(P([("int32_t", "a", "input")] + R64, "r = (%s + %s) ? a : (a + 1);" % (x, BOOLS[0]), ["r"], tag=("fold-bool-cond", x)))
         out.append(P([("int32_t", "a", "input")] + R64, "r = a + %s + %s;" % (x, x), ["r"], tag=("fold-bool-var", x)))
         out.append(P([("int32_t", "a", "input")] + R64, "r = a + (%s + %s);" % (x, x), ["r"], tag=("fold-bool-var2", x)))
+    # constant conditions that are not 0 or 1: any non-zero value selects the first arm (negative values come out of folds)
+    for k in ["-1", "~0", "(0 - 1)", "(1 - 2)", "-1LL", "~0U", "(-5 + 2)", "(0 - 1LL)", "2", "-2", "(3 - 3)", "~0xffffffffU", "(2 * -1)", "-0", "4294967296", "(0U - 1)"]:
+        da = [("int32_t", "a", "input"), ("int32_t", "b", "input")] + R64
+        out.append(P(da, "r = %s ? a : b;" % k, ["r"], tag=("cond-value", k, "cond")))
+        out.append(P(da, "if (%s) { r = a; } else { r = b; }" % k, ["r"], tag=("cond-value", k, "if")))
+        out.append(P(da, "r = (%s ? a : b) + (%s ? 1 : 2);" % (k, k), ["r"], tag=("cond-value", k, "sum")))
+        out.append(P(da, "r = !%s; r = r * 2 + (%s && a);" % (k, k), ["r"], tag=("cond-value", k, "logic")))
     # metamorphic partners of the folded pairs: same expression over typed variables
     for x in S[:: (1 if tier == "thorough" else 3)]:
         for y in S[:: (1 if tier == "thorough" else 3)]:
